@@ -181,7 +181,7 @@ Proof.
     rewrite aht_reset_same by (unfold aht_of; cbn [a_size]; exact Has). cbn [bind].
     rewrite Ea. cbn [bind]. eauto. }
   destruct E2 as (s2 & E2). rewrite E2. cbn [bind].
-  destruct (step_OPre H H_len _ _ _ _ _ _ _ I1 E2) as (r & I2 & R1 & R2 & R3 & R4 & R5 & R6 & (v' & vo' & vn' & hv' & R7 & R8)).
+  destruct (step_OPre H H_len _ _ _ _ _ _ _ I1 E2) as (r & I2 & R1 & R2 & R3 & R4 & R5 & R6 & (v' & vo' & vn' & hv' & R7 & R8 & _) & _).
   rewrite P1 in *.
   (* sync cycle *)
   assert (P2: precommitted s2 = precommitted s + 1).
@@ -210,13 +210,7 @@ Proof.
 Qed.
 
 
-Lemma reach_run c nv s ops s' : reach H c nv s -> run s ops = Ok s' -> reach H c nv s'.
-Proof.
-  revert s; induction ops as [|o ops IH]; intros s R E; cbn [Protocol.run] in E.
-  - congruence.
-  - destruct (step s o) as [s1| |] eqn:E1; cbn [bind] in E; try discriminate.
-    eapply IH; [|exact E]. eapply r_step; eauto.
-Qed.
+Notation reach_run := (Theorems.reach_run H).
 
 (* ================= the machine accepts new commits ================= *)
 Theorem backlog_is_committed c nv s :
